@@ -19,6 +19,8 @@ Search (the property itself on the real code):
 """
 import itertools
 import json
+import os
+import tempfile
 
 import docsem
 import flat
@@ -30,6 +32,7 @@ from props.c14 import nest_complex, loops_forever, time_limit, RealCodeTimeout
 
 TITLE = "block-level vs combinator-level constraint scope"
 LEVEL = "proof"
+DOMAINS = ['Decode', 'Design']
 
 # Finding of this check on the pinned tree, repaired in /repo commit 2f184ec; the window search below
 # (sig "ranges:overrun") and the end-to-end search (sig "e2e:partial-last-repetition") report it again
@@ -332,7 +335,14 @@ def search_e2e(program):
     if block is None:
         return ("e2e:rejected", "constructors reject the program: %r" % (built.errors,), {})
     T, S, wins, want = e2e_oracle(program)
-    r = ir.synthesize(block, len(want) + 50, "IterateSATGen")
+    # the library writes its temporary CNF file into the working directory: use a scratch one
+    cwd = os.getcwd()
+    with tempfile.TemporaryDirectory() as tmp:
+        os.chdir(tmp)
+        try:
+            r = ir.synthesize(block, len(want) + 50, "IterateSATGen")
+        finally:
+            os.chdir(cwd)
     names = [f["name"] for f in program["factors"]]
     c = program["constraints"][0]
     levels = [c["level"][1]] if "level" in c else [l for l, _ in program["factors"][0]["levels"]]
